@@ -29,7 +29,9 @@ META = {
             "stateless checks (checkATV/checkVTB/checkPopData/checkBlock) run on whatever decodes; any sanitizer report, "
             "abort, escaped exception or timeout is a violation whose replay is the input.",
     "note": "partial by nature: sanitizers observe the compiled code, the proof covers the model. Not modelled here: the "
-            "stateless checks themselves (signature, merkle) — run for crashes/throws only; containsSplit as coded is covered "
+            "stateless checks themselves (signature, merkle) — run for crashes/throws only; the accepted address wire forms are stated over the C18 address model "
+            "(C06_address_accepted_wire_forms; idempotence/length premise addr_norm_sound not discharged); containsSplit as "
+            "coded is covered "
             "by Properties_C05 (C05_split_no_oob) and is driven here with structured hostile split descriptors under ASan; steps_linear not proved; "
             "BFI is not covered. Trusted: as C11.",
     "technique": "Coq proof (total parsers with explicit unsafe outcomes) + sanitizer-instrumented differential fuzzing",
